@@ -96,7 +96,7 @@ def jobs(prop, tier, only_fn=None):
         for B in sizes:
             LB = B * unit
             NB = LB + unit
-            pads = ((0, 0), (1, 4)) if quick else ((0, 0), (1, 1), (3, 3), (7, 7), (1, 4), (0, 5), (6, 2), (4, 0))
+            pads = ((0, 0), (1, 4), (3, 3)) if quick else ((0, 0), (1, 1), (3, 3), (7, 7), (1, 4), (0, 5), (6, 2), (4, 0))
             if not copy:
                 pads = sorted({(a, a) for (a, b) in pads} | {(b, b) for (a, b) in pads})
             for (pad, spad) in pads:
